@@ -46,6 +46,7 @@ func newSvcWorld(c *core.Case, col string) (*svcWorld, error) {
 		return nil, err
 	}
 	w := &svcWorld{c: c, b: b, g: crdt.NewGen(c.Rng), ledger: bed.NewLedger(), col: col, lastS: map[*bed.DT]uint64{}, lastC: map[*bed.DT]uint64{}}
+	w.g.Long = 0.02 // now and then a value of several KiB: bodies beyond log-line and buffer sizes pass the server
 	if err := b.CreateCollection(col); err != nil {
 		return nil, fmt.Errorf("CreateCollection: %v", err)
 	}
